@@ -1452,6 +1452,60 @@ func (s *vfSM) doClear(live bool, vs *[]*vfViol) {
 
 // finish drains, checks, closes the cache and checks the closed cache.
 func (s *vfSM) finish() (vs []*vfViol) {
+	if bd := s.blockedDel; bd != nil && s.twinWanted && s.nextTok%2 == 0 && s.align(&vs) {
+		// C15 profile, half of the cases that end with a caller parked on the full write buffer: Close right now.
+		// Clear (inside Close) drains the buffer; every slot it frees lets a parked sender's item in, and that item has
+		// to be drained too - a Wait marker closed, a tombstone dropped - or its caller is stranded for good.
+		s.dropTwin()
+		liveBefore := s.liveToks()
+		s.standIn()
+		s.c.Close()
+		s.closed = true
+		s.halted = false
+		s.fifo = nil
+		s.blockedDel = nil
+		s.st.closedWithParkedSender++
+		_, v := s.absorb()
+		s.add(&vs, v)
+		synctest.Wait()
+		select {
+		case <-bd.done:
+		default:
+			what := "Del"
+			if bd.isWait {
+				what = "Wait"
+			}
+			s.add(&vs, vfV("C15", "caller-parked-on-full-buffer-stranded-by-close", "a %s call was blocked on the full write buffer when Close ran; Close has returned and the call still has not", what))
+			// let the stranded goroutine go, so that the bubble can end and the verdict above is what gets reported
+			func() {
+				defer func() { _ = recover() }()
+				for {
+					select {
+					case it, ok := <-s.c.setBuf:
+						if !ok {
+							return
+						}
+						if it != nil && it.wait != nil {
+							close(it.wait)
+						}
+					default:
+						return
+					}
+				}
+			}()
+			synctest.Wait()
+		}
+		for _, t := range liveBefore {
+			if ti := s.toks[t]; ti.exits != 1 {
+				s.add(&vs, &vfViol{Owner: "C04", Sig: "C04/not-released-by-close", Msg: fmt.Sprintf("value %d (key %d) has %d OnExit calls after Close", t, ti.key, ti.exits)})
+			}
+		}
+		for _, w := range s.waiters {
+			w.release = true
+		}
+		s.checkWaiters(&vs, "C15")
+		return
+	}
 	for len(s.fifo) > 0 {
 		s.stepOne(&vs)
 	}
